@@ -135,7 +135,8 @@ def check_case(case):
     out = Outcome()
     meta = case.meta
     ed = meta['edition']
-    out.classes = ['edition%d' % ed, 'section2' if meta.get('section2') is not None else 'no_section2']
+    out.classes = ['edition%d' % ed, 'section2' if meta.get('section2') is not None else 'no_section2'] + \
+        sorted(f for f in case.features if f.startswith('c17_'))
     out.nontrivial = True
     exp = expected_sections(case)
     o = sut.call(decoder().process, case.bytes)
@@ -305,8 +306,35 @@ def check_any(case):
 _FUZZ_OPTS = small_opts('quick')
 
 
+def gen_msg(ch, opts):
+    """a message of the shared generator; now and then with a section 2 that is present but empty (length 4), or naming a
+    master table version that is not installed (the data is then read with the default tables, the metadata says what
+    the message says)"""
+    k = ch.weighted([(6, 'plain'), (1, 'empty_section2'), (1, 'uninstalled_version'), (1, 'both')])
+    if k == 'plain':
+        return gmsg.gen_case(ch, opts)
+    if k in ('uninstalled_version', 'both'):
+        o2 = gmsg.GenOpts('quick')
+        o2.versions, o2.local_tables, o2.max_subsets, o2.extra_widths = [33], False, opts.max_subsets, False
+        o2.template = opts.template
+        d = gmsg.gen_case(ch, o2).to_json()
+        d['meta']['master_table_version'] = ch.choice([42, 5, 99, 255])
+    else:
+        d = gmsg.gen_case(ch, opts).to_json()
+    if k in ('empty_section2', 'both'):
+        d['meta']['section2'] = {'hex': ''}
+    try:
+        c = gmsg.Case.from_json(d)
+    except Exception as e:
+        raise runner.Reject('relabelled case rejected by the reference: %s' % str(e)[:40])
+    if c.decoded.ambiguous():
+        raise runner.Reject('ambiguous')
+    c.features.add('c17_' + k)
+    return c
+
+
 def _fuzz_gen(ch):
-    return gmsg.gen_case(ch, _FUZZ_OPTS)
+    return gen_msg(ch, _FUZZ_OPTS)
 
 
 fuzz_case = fuzz.structured_target(_fuzz_gen, check_case)
@@ -326,7 +354,7 @@ def run(tier, seed):
     std.replay_files(rep, PID, check_any, load_case)
     opts = small_opts(tier)
     n = 800 if tier == 'quick' else 6000
-    runner.run_generated(rep, lambda ch: gmsg.gen_case(ch, opts), check_case, n, workers)
+    runner.run_generated(rep, lambda ch: gen_msg(ch, opts), check_case, n, workers)
     n = 800 if tier == 'quick' else 8000
     runner.run_generated(rep, lambda ch: gen_stream(ch, opts), check_stream, n, workers, stage='info-only streams')
     rep.required_classes = ['edition2', 'edition3', 'edition4', 'section2', 'no_section2', 'noise_in_data_section',
